@@ -108,19 +108,39 @@ def run(ctx):
             res.check(bool(d0) and norm(d0[-1].value) == "sum(I_0.values())", "D-SERIES", f, norm(d0[-1]) if d0 else src, "initial-count", "the initial value is not the number of initially infected nodes", loc(v.fi, first[0]))
         # early termination only in the state that is absorbing for every rate triple (nobody infected)
         res.rules["G-ABSORB"] = "the time loop runs while `Infected > 0 and t < T`: the only early exit is the die-out state, which is absorbing for all rates"
-        atoms = []
         t_ = wl.test
         vals = t_.values if isinstance(t_, ast.BoolOp) and isinstance(t_.op, ast.And) else [t_]
-        ok_guard = True
+        params = {a.arg for a in v.fi.params}
+        # the infected-count variable: a local assigned from sum(<state>.values())
+        counts = {n.targets[0].id for n in walk_no_nested(v.fi.node) if isinstance(n, ast.Assign) and isinstance(n.targets[0], ast.Name) and isinstance(n.value, ast.Call) and norm(n.value.func) == "sum" and n.value.args and isinstance(n.value.args[0], ast.Call) and isinstance(n.value.args[0].func, ast.Attribute) and n.value.args[0].func.attr == "values"}
+        kinds_ = []
         for a in vals:
-            txt = norm(a)
-            if txt in ("Infected > 0", "0 < Infected", "Infected != 0", "Infected"):
-                atoms.append("alive")
-            elif txt in ("t < T", "T > t"):
-                atoms.append("time")
-            else:
-                ok_guard = False
-        res.check(ok_guard and "time" in atoms and not (isinstance(t_, ast.BoolOp) and isinstance(t_.op, ast.Or)), "G-ABSORB", f, norm(wl.test), "loop-guard", "the simulation stops early in a state that is not absorbing for every rate triple (e.g. everybody infected, while recovery can still happen)", loc(v.fi, wl))
+            k_ = "other"
+            if isinstance(a, ast.Name) and a.id in counts:
+                k_ = "alive"
+            elif isinstance(a, ast.Compare) and len(a.ops) > 1:
+                operands = [a.left] + list(a.comparators)
+                if any(isinstance(x, ast.Name) and x.id in counts for x in operands):
+                    # 0 < Infected < N and the like: the count is bounded by something else than 0
+                    k_ = "count-vs-other" if any(not (isinstance(x, ast.Constant) and x.value == 0) and not (isinstance(x, ast.Name) and x.id in counts) for x in operands) else "other"
+            elif isinstance(a, ast.Compare) and len(a.ops) == 1:
+                l, op, r = a.left, a.ops[0], a.comparators[0]
+                if isinstance(l, ast.Name) and l.id in counts and isinstance(r, ast.Constant) and r.value == 0 and isinstance(op, (ast.Gt, ast.NotEq)):
+                    k_ = "alive"
+                elif isinstance(r, ast.Name) and r.id in counts and isinstance(l, ast.Constant) and l.value == 0 and isinstance(op, (ast.Lt, ast.NotEq)):
+                    k_ = "alive"
+                elif (isinstance(l, ast.Name) and l.id in counts) or (isinstance(r, ast.Name) and r.id in counts):
+                    k_ = "count-vs-other"  # e.g. Infected < N: stops when everybody is infected
+                elif (isinstance(r, ast.Name) and r.id in params and isinstance(op, ast.Lt) and isinstance(l, ast.Name)) or (isinstance(l, ast.Name) and l.id in params and isinstance(op, ast.Gt) and isinstance(r, ast.Name)):
+                    k_ = "time"
+            kinds_.append(k_)
+        is_or = isinstance(t_, ast.BoolOp) and isinstance(t_.op, ast.Or)
+        if "count-vs-other" in kinds_ or is_or and any(k_ in ("alive", "count-vs-other") for k_ in [*kinds_, "alive" if is_or and any(isinstance(x, ast.Name) and x.id in counts for x in ast.walk(t_)) else ""]):
+            res.violation("G-ABSORB", f, norm(wl.test), "loop-guard", "the simulation stops early in a state that is not absorbing for every rate triple (e.g. everybody infected, while recovery can still happen)", loc(v.fi, wl))
+        elif "time" in kinds_ and all(k_ in ("alive", "time") for k_ in kinds_):
+            res.ok("G-ABSORB", f, norm(wl.test), "loop-guard", loc(v.fi, wl))
+        else:
+            res.unknown("G-ABSORB", f, norm(wl.test), "loop-guard", "the loop guard was not recognised as `infected > 0 and t < T`", loc(v.fi, wl))
         inner = [s for s in st if s not in first and wl in v.enclosing_all(s, (ast.While,))]
         res.check(len(inner) == 1 and any(inner[0] is x for x in wl.body) and inner[0].lineno > sw.end_lineno, "D-SERIES", f, norm(inner[0]) if inner else f"{series}[t] = Infected", "per-step", "the count is not recorded once per step after the sweep", loc(v.fi, wl))
         if inner:
@@ -149,27 +169,64 @@ def run(ctx):
         normed = [n for n in walk_no_nested(v.fi.node) if isinstance(n, ast.BinOp) and isinstance(n.op, ast.Div) and "sum(axis=1)" in norm(n.right)]
         res.check(bool(normed), "D-SYM", f, norm(normed[0]) if normed else "T / T.sum(axis=1)", "row-normalised", "rows are not divided by their sums", loc(v.fi, v.fi.node))
     # ---- density / walk
-    with res.guard("density / walk"):
+    def tm_name(v):
+        """the local that holds the transition matrix of the given hypergraph: K = <...transition_matrix(<first param>)...>"""
+        first = v.fi.params[0].arg if v.fi.params else None
+        out = []
+        for n in walk_no_nested(v.fi.node):
+            if isinstance(n, ast.Assign) and isinstance(n.targets[0], ast.Name):
+                calls = [c for c in ast.walk(n.value) if isinstance(c, ast.Call) and norm(c.func).endswith("transition_matrix")]
+                if calls:
+                    out.append((n.targets[0].id, n, all(c.args and norm(c.args[0]) == first for c in calls)))
+        return out
+
+    with res.guard("density"):
         v = ctx.view("randwalk.random_walk_density")
         f = v.fi.short
+        tms = tm_name(v)
+        if not tms:
+            raise AnalysisError(f"{f}: transition matrix not recognised")
+        K, kdef, of_given = tms[0]
+        res.check(of_given, "D-STEP", f, norm(kdef), "K", "K is not the transition matrix of the given hypergraph", loc(v.fi, kdef))
         lp = [n for n in walk_no_nested(v.fi.node) if isinstance(n, ast.For)]
-        if len(lp) != 1:
-            raise AnalysisError(f"{f}: propagation loop not recognised")
-        upd = [n for n in lp[0].body if isinstance(n, ast.Assign) and isinstance(n.value, ast.BinOp) and isinstance(n.value.op, ast.MatMult)]
-        res.check(len(upd) == 1 and norm(upd[0].value.left) == norm(upd[0].targets[0]) and norm(upd[0].value.right) == "K", "D-STEP", f, norm(upd[0]) if upd else "s = s @ K", "s<-sK", "the density is not propagated as s <- s K (previous density times the transition matrix)", loc(v.fi, lp[0]))
-        app = [n for n in ast.walk(lp[0]) if isinstance(n, ast.Call) and isinstance(n.func, ast.Attribute) and n.func.attr == "append"]
-        res.check(len(app) == 1 and bool(upd) and norm(app[0].args[0]) == norm(upd[0].targets[0]) and app[0].lineno > upd[0].lineno, "D-STEP", f, norm(app[0]) if app else "density_list.append(s)", "append-new", "the appended density is not the one just computed", loc(v.fi, lp[0]))
-        kdef = [n for n in walk_no_nested(v.fi.node) if isinstance(n, ast.Assign) and norm(n.targets[0]) == "K"]
-        res.check(bool(kdef) and "transition_matrix(HG)" in norm(kdef[0].value), "D-STEP", f, norm(kdef[0]) if kdef else "K = transition_matrix(HG)", "K", "K is not the transition matrix of the given hypergraph", loc(v.fi, v.fi.node))
+        upd = [n for l in lp for n in ast.walk(l) if isinstance(n, ast.Assign) and isinstance(n.value, ast.BinOp) and isinstance(n.value.op, ast.MatMult)]
+        if not upd:
+            res.unknown("D-STEP", f, "s = s @ K", "s<-sK", "the propagation step was not recognised", loc(v.fi, v.fi.node))
+        for u in upd:
+            good = norm(u.value.left) == norm(u.targets[0]) and norm(u.value.right) == K
+            res.check(good, "D-STEP", f, norm(u), "s<-sK", "the density is not propagated as s <- s K (previous density times the transition matrix)", loc(v.fi, u))
+            l_ = v.enclosing(u, (ast.For,))
+            app = [n for n in ast.walk(l_) if isinstance(n, ast.Call) and isinstance(n.func, ast.Attribute) and n.func.attr == "append"] if l_ is not None else []
+            if app:
+                res.check(len(app) == 1 and norm(app[0].args[0]) == norm(u.targets[0]) and app[0].lineno > u.lineno, "D-STEP", f, norm(app[0]), "append-new", "the appended density is not the one just computed", loc(v.fi, app[0]))
+            else:
+                res.unknown("D-STEP", f, "density_list.append(s)", "append-new", "the statement that records the new density was not recognised", loc(v.fi, u))
+    with res.guard("walk"):
         v = ctx.view("randwalk.random_walk")
         f = v.fi.short
+        tms = tm_name(v)
         ch = [n for n in walk_no_nested(v.fi.node) if isinstance(n, ast.Call) and norm(n.func) == "np.random.choice"]
-        if len(ch) != 1:
+        if len(ch) != 1 or not tms:
             raise AnalysisError(f"{f}: step idiom not recognised")
+        K = tms[0][0]
+        rets = [n for n in walk_no_nested(v.fi.node) if isinstance(n, ast.Return) and isinstance(n.value, ast.Name)]
+        walk = rets[0].value.id if rets else None
         kw = {k.arg: k.value for k in ch[0].keywords}
-        res.check("p" in kw and norm(kw["p"]) in ("K[nodes[-1], :]", "K[nodes[-1]]"), "D-STEP", f, norm(ch[0]), "row-of-last", "the next node is not drawn with the transition row of the last visited node", loc(v.fi, ch[0]))
+        pexp = kw.get("p")
+        if pexp is None or walk is None:
+            res.add("D-STEP", f, norm(ch[0]), "row-of-last", "violation" if pexp is None else "unknown", "the next node is not drawn with the transition row of the last visited node", loc(v.fi, ch[0]))
+        else:
+            txt = norm(pexp)
+            good = txt in (f"{K}[{walk}[-1], :]", f"{K}[{walk}[-1]]")
+            bad = isinstance(pexp, ast.Subscript) and norm(pexp.value) == K and (f"{walk}[0]" in txt or ":, " in txt)
+            res.add("D-STEP", f, norm(ch[0]), "row-of-last", "ok" if good else ("violation" if bad else "unknown"), "" if good else "the next node is not drawn with the transition row of the last visited node", loc(v.fi, ch[0]))
         asg = v.parent.get(id(ch[0]))
-        app = [n for n in walk_no_nested(v.fi.node) if isinstance(n, ast.Call) and isinstance(n.func, ast.Attribute) and n.func.attr == "append" and norm(n.func.value) == "nodes"]
-        res.check(isinstance(asg, ast.Assign) and len(app) == 1 and norm(app[0].args[0]) == norm(asg.targets[0]), "D-STEP", f, norm(app[0]) if app else "nodes.append(next_node)", "append-drawn", "the drawn node is not what gets appended to the walk", loc(v.fi, ch[0]))
+        app = [n for n in walk_no_nested(v.fi.node) if isinstance(n, ast.Call) and isinstance(n.func, ast.Attribute) and n.func.attr == "append" and norm(n.func.value) == walk]
+        if isinstance(asg, ast.Assign) and app:
+            res.check(len(app) == 1 and norm(app[0].args[0]) == norm(asg.targets[0]), "D-STEP", f, norm(app[0]), "append-drawn", "the drawn node is not what gets appended to the walk", loc(v.fi, ch[0]))
+        elif isinstance(asg, ast.Call) and isinstance(asg.func, ast.Attribute) and asg.func.attr == "append" and norm(asg.func.value) == walk:
+            res.ok("D-STEP", f, norm(asg), "append-drawn", loc(v.fi, ch[0]))
+        else:
+            res.unknown("D-STEP", f, "nodes.append(next_node)", "append-drawn", "the statement that extends the walk was not recognised", loc(v.fi, ch[0]))
     res.assumptions += ["transition_matrix / random walks index by label (one-symbol exemption: the property restricts them to nodes 0..N-1)", "numeric stochasticity / stationarity are not decided"]
     return res
